@@ -209,8 +209,12 @@ func (c *Ctx) Finish() int {
 	// floors
 	for _, name := range c.ruleOrder {
 		r := c.rules[name]
-		if r.Instances < r.Floor {
-			c.undecided = append(c.undecided, fmt.Sprintf("rule %s analysed %d instances, below the hand-confirmed floor %d (rule would pass vacuously)", name, r.Instances, r.Floor))
+		// Floor is the instance count confirmed by hand on the reference tree. A rule that finds
+		// fewer than three quarters of it no longer sees the code it was written for (it would pass
+		// vacuously): undecided. The slack absorbs restructurings that merge duplicated code (two
+		// decoders sharing one helper are one instance where there were two).
+		if r.Instances < r.Floor*3/4 {
+			c.undecided = append(c.undecided, fmt.Sprintf("rule %s analysed %d instances, less than three quarters of the %d confirmed on the reference tree (rule would pass vacuously)", name, r.Instances, r.Floor))
 		}
 	}
 	fmt.Printf("== %s tier=%s configs=%v\n", c.Prop, c.Tier, c.configs)
